@@ -244,9 +244,13 @@ def run(ctx):
                                      DWs=["same", "wider", "narrower"], DataMode="zero", V=vmax, Emit="cfg"), "EmitCfg", {}))
     rows = sorted({r for sc in tier["vals"] for r in range(sc["MinR"], sc["MaxR"] + 1)})
     cols = sorted({f for sc in tier["vals"] for f in range(sc["MinF"], sc["MaxF"] + 1)})
+    # buffer layouts: one emitter for the small + generated shapes, one for the wide rows (the cross product of all
+    # row and column counts would contain shapes nobody replays, 257 x 66000 among them)
     emitters.append(("lay", dict(Kernels=["euclidean"], Layouts=LAYOUTS, OutKinds=GOOD_OUTS, DataMode="zero", MinR=rows[0], MaxR=rows[-1],
-                                 MinF=cols[0], MaxF=cols[-1], GenRows=sorted(set(tier["gen"]["GenRows"] + tier["wide"]["GenRows"])),
-                                 GenCols=sorted(set(tier["gen"]["GenCols"] + tier["wide"]["GenCols"])), Emit="lay"),
+                                 MinF=cols[0], MaxF=cols[-1], GenRows=tier["gen"]["GenRows"], GenCols=tier["gen"]["GenCols"], Emit="lay"),
+                     "EmitLay", {}))
+    emitters.append(("laywide", dict(Kernels=["euclidean"], Layouts=LAYOUTS, OutKinds=GOOD_OUTS, DataMode="zero", MinR=1, MaxR=0,
+                                     MinF=1, MaxF=0, GenRows=tier["wide"]["GenRows"], GenCols=tier["wide"]["GenCols"], Emit="lay"),
                      "EmitLay", {}))
     for name, kw, inv, _ in emitters:
         core.write_cfg(os.path.join(d, name + ".cfg"), next_="Stutter", constants=dist_consts(**kw), invariants=[inv])
@@ -290,7 +294,7 @@ def run(ctx):
                 if not got:
                     raise core.MachineryError("no CFG lines from emitter %s" % a)
                 cfgs += [g for g in got if (a == "cfg_bad") == (g["expect"] == "error")]
-            else:
+            else:       # "lay", "laywide"
                 for t, p in r.prints:
                     if t == "LAY":
                         lays["%s|%s|%d|%d" % (p["layout"], p["out"], p["r"], p["f"])] = p
